@@ -133,7 +133,7 @@ func runChain(o *hlib.Out, p *pki, sc *sslCase, hostname string, ip net.IP, sv s
 	in := map[string]interface{}{"host": host, "server_cert": sv.kind, "script": si, "stage": stage, "code": code, "error": r.res.ErrText}
 	if sc != nil {
 		in["ssl"] = map[string]interface{}{"config_nil": sc.configNil, "insecure_skip_verify": sc.insecure, "server_name": sc.name, "root_cas": sc.roots,
-			"has_root_cas": sc.hasRoots, "enable_host_verification": sc.hv, "ca": sc.ca.kind, "keypair": sc.kp.kind}
+			"has_root_cas": sc.hasRoots, "enable_host_verification": sc.hv, "ca": sc.ca.kind, "keypair": sc.kp.kind, "other_fields_set": otherFieldNames(sc.other)}
 	}
 	if hung {
 		o.Violate(idx, "chain-server-hang", "", "server side did not terminate", in)
